@@ -242,9 +242,14 @@ func runJob(j job) jobResult {
 		if finished {
 			os.Remove(sp.Progress)
 			os.Remove(specPath)
+			os.Remove(stderrPath)
+			os.Remove(fmt.Sprintf("%s.a%d.stdout", base, attempt))
+			os.Remove(sp.Result)
 			return res
 		}
 		ci, idx, n, payload, ok := lastProgress(sp.Progress)
+		os.Remove(sp.Progress) // the last line (the witness) is kept in the violation record
+		os.Remove(fmt.Sprintf("%s.a%d.stdout", base, attempt))
 		if !ok {
 			// died before the first input
 			stderr, _ := os.ReadFile(stderrPath)
